@@ -12,6 +12,10 @@ MUTANTS = [
     {"name": "revert-10a47c7-nan-bounds", "revert": "10a47c7", "props": ["C02", "C01"]},
     {"name": "revert-fb0dac0-and-raw-exc", "revert": "fb0dac0", "props": ["C04"]},
     {"name": "revert-aa785cb-lax-bound-type", "revert": "aa785cb", "props": ["C01"]},
+    {"name": "revert-b8f56f5-registry-stale-cache", "props": ["C16"], "edits": [{"file": "utype/utils/base.py", "old": "            self._cache.clear()\n", "new": ""}]},
+    {"name": "revert-28f56ca-registry-priority0-order", "revert": "28f56ca", "props": ["C16"]},
+    {"name": "revert-b9950c3-xor-threads-value", "revert": "b9950c3", "props": ["C09"]},
+    {"name": "revert-b467353-enum-unhashable", "revert": "b467353", "props": ["C12"]},
     # ---- C01 ------------------------------------------------------------------------------
     {"name": "c01-seq-first-element-unconverted", "props": ["C01"], "edits": [{"file": R, "old": """                try:
                     result.append(
